@@ -7,6 +7,7 @@ import XModel.ManagerFn
 import XModel.ManagerC01b
 import XModel.ManagerFnHist
 import XModel.ManagerKnob
+import XModel.ManagerMixed
 /-!
 # C01 — expression-defined locations always equal their definition on current data
 
@@ -246,5 +247,73 @@ theorem C01_partial_scope_needed :
     get (applyAll id s1 histD1).store nx = .ok (.int 10) ∧ get (applyAll id s1 histD1).store ny = .ok (.int 3) := by
   refine ⟨by decide, rfl, rfl⟩
 end example_
+
+
+/-! ### knob tasks mixed with expression / function tasks in one triggered set (XModel/ManagerMixed.lean) -/
+
+/-- **one assignment whose triggered set mixes linear knobs with expression / function tasks**: on a state in `ScopeM` (every task well declared, leaf targets of different tasks pairwise incomparable, no task writes a knob's source, the assignment touches no target), under any legal schedule, a completed assignment of an int to a plain location leaves every expression item holding (`ConsistentF`), every knob on the assigned location at the new value (`KnobAt`), every other triggered knob at its source's value, every knob invariant kept, and everything incomparable with the triggered targets unchanged (`MixedPost`) -/
+theorem C01_mixed_knobs_and_expressions :
+    ∀ (sched : Manager.Sched) (B : Manager.Path → List Int) (s : Manager.MState) (p : Manager.Path)
+      (v : Int),
+      Manager.MInv s →
+        Manager.lookDef s.defs p = none →
+          Manager.ScopeM s p →
+            Manager.ValidSched (Manager.gOf s.idx) (Manager.findTaskids s.idx (Manager.chainR p))
+                (sched (Manager.findTaskids s.idx (Manager.chainR p))) →
+              (∀ (t : Manager.MTask),
+                  t ∈ s.defs →
+                    ¬t.id ∈ sched (Manager.findTaskids s.idx (Manager.chainR p)) →
+                      ∀ (it : Push.ETask), it ∈ Manager.itemsOf t → (Push.exprSys Manager.pySem).Q it s.store) →
+                (∀ (t : Manager.MTask), t ∈ s.defs → Manager.ReadyM B t s) →
+                  ∀ (s' : Manager.MState),
+                    Manager.setValue sched s p (Store.Val.int v) = (s', none) →
+                      Manager.MixedPost B (sched (Manager.findTaskids s.idx (Manager.chainR p))) p v s s' :=
+  @Manager.setValue_mixed
+
+/-- the same over any series of plain int assignments, each in `ScopeM` at the state where it is made: consistency of expression items and of every knob is kept, and so are the index invariant and the graph -/
+theorem C01_mixed_histories :
+    ∀ (sched : Manager.Sched) (B : Manager.Path → List Int) (as : List (Manager.Path × Int))
+      (s : Manager.MState),
+      Manager.MInv s →
+        Manager.ConsistentM B s →
+          Manager.MixedRun sched s as →
+            Manager.ConsistentM B (Manager.mixedAssignAll sched s as) ∧
+              Manager.MInv (Manager.mixedAssignAll sched s as) ∧ Manager.SameGraph s (Manager.mixedAssignAll sched s as) :=
+  @Manager.mixedRun_consistent
+
+/-- on integer data (items built from `+ - *`, reads and targets holding ints) the run of a mixed triggered set COMPLETES — completion is a conclusion, not a hypothesis — and the post-condition holds -/
+theorem C01_mixed_completes_on_int_data :
+    ∀ (sched : Manager.Sched) (B : Manager.Path → List Int) (R : List Manager.Path),
+      (∀ (q : Manager.Path), q ∈ R → Push.canonPath q) →
+        ∀ (s : Manager.MState) (p : Manager.Path) (v : Int),
+          Manager.MInv s →
+            Manager.lookDef s.defs p = none →
+              Manager.ScopeM s p →
+                Manager.ValidSched (Manager.gOf s.idx) (Manager.findTaskids s.idx (Manager.chainR p))
+                    (sched (Manager.findTaskids s.idx (Manager.chainR p))) →
+                  (∀ (t : Manager.MTask),
+                      t ∈ s.defs →
+                        ¬t.id ∈ sched (Manager.findTaskids s.idx (Manager.chainR p)) →
+                          ∀ (it : Push.ETask), it ∈ Manager.itemsOf t → (Push.exprSys Manager.pySem).Q it s.store) →
+                    (∀ (t : Manager.MTask), t ∈ s.defs → Manager.ReadyM B t s) →
+                      p ∈ R →
+                        Manager.IntWorld R s.store →
+                          (∀ (t : Manager.MTask),
+                              t ∈ s.defs →
+                                t.id ∈ sched (Manager.findTaskids s.idx (Manager.chainR p)) → Manager.IntTask R t) →
+                            ∃ s',
+                              Manager.setValue sched s p (Store.Val.int v) = (s', none) ∧
+                                Manager.MixedPost B (sched (Manager.findTaskids s.idx (Manager.chainR p))) p v s s' ∧
+                                  Manager.IntWorld R s'.store :=
+  @Manager.setValue_mixed_total
+
+/-- the hypotheses of the mixed-set theorem as decidable tests (`mixedScopeB`, `consistentMB`, `validSchedule`), sound -/
+theorem C01_mixed_decided :
+    ∀ (sched : Manager.Sched) (B : Manager.Path → List Int) (as : List (Manager.Path × Int))
+      (s : Manager.MState),
+      Manager.MInv s →
+        Manager.consistentMB B s = true →
+          Manager.mixedRunB sched s as = true → Manager.ConsistentM B (Manager.mixedAssignAll sched s as) :=
+  @Manager.C01M_decided
 
 end Properties.C01
